@@ -2023,6 +2023,15 @@ void DOMRangeImpl::updateSplitInfo(DOMNode* oldNode, DOMNode* startNode, XMLSize
 {
     if (startNode == 0) return;
 
+    if (oldNode->getParentNode() == 0) {
+        // the new node is not linked to the old one: a boundary point that followed
+        // the text into it would leave the range with its two points in different
+        // trees. The points stay in the old node, at its new end.
+        if (oldNode == fStartContainer && fStartOffset > offset) fStartOffset = offset;
+        if (oldNode == fEndContainer && fEndOffset > offset) fEndOffset = offset;
+        return;
+    }
+
     short type = fStartContainer->getNodeType();
     if (oldNode == fStartContainer
         && (type == DOMNode::TEXT_NODE
